@@ -53,6 +53,24 @@ fn variant_name(e: &Error) -> String {
     d.chars().take_while(|c| c.is_alphanumeric() || *c == '_').collect()
 }
 
+/// The typed harness error, wherever the outcome carries it: as the error itself, in its chain, or
+/// inside a `reval::Error::UserFunctionError` that the failing function returned as *its* error.
+fn find_probe_error(error: &anyhow::Error, depth: u32) -> Option<&ProbeError> {
+    if let Some(p) = error.downcast_ref::<ProbeError>() {
+        return Some(p);
+    }
+    if let Some(p) = error.chain().find_map(|c| c.downcast_ref::<ProbeError>()) {
+        return Some(p);
+    }
+    if depth < 4 {
+        let inner = error.downcast_ref::<Error>().or_else(|| error.chain().find_map(|c| c.downcast_ref::<Error>()));
+        if let Some(Error::UserFunctionError { error, .. }) = inner {
+            return find_probe_error(error, depth + 1);
+        }
+    }
+    None
+}
+
 pub fn err_sum(e: &Error) -> ErrSum {
     let (class, payload): (&str, Vec<String>) = match e {
         Error::InvalidFunctionName(n) => ("InvalidFunctionName", vec![n.clone()]),
@@ -68,9 +86,7 @@ pub fn err_sum(e: &Error) -> ErrSum {
         Error::UserFunctionError { function, error } => {
             // "carrying the original error": the typed harness error must be
             // reachable by downcast or through the chain; text is not compared
-            let carried = error
-                .downcast_ref::<ProbeError>()
-                .or_else(|| error.chain().find_map(|c| c.downcast_ref::<ProbeError>()));
+            let carried = find_probe_error(error, 0);
             match carried {
                 Some(p) => ("UserFunctionError", vec![function.clone(), p.function.clone(), p.msg.clone()]),
                 None => ("UserFunctionError", vec![function.clone(), "<original error lost>".into()]),
